@@ -81,7 +81,13 @@ func (i *interpreter) symSprintf(format string, list []value) value {
 			continue
 		}
 		sym := false
-		na := nativeArg(i, a, &sym)
+		var na any
+		if strings.IndexByte("dxXobcU", format[j]) >= 0 && e.t != nil {
+			// integer verbs print the number, not String() (time.Month, ...)
+			na = nativeArg(i, e.v, &sym)
+		} else {
+			na = nativeArg(i, a, &sym)
+		}
 		if sym {
 			panic(engineError{"formatting a symbolic scalar together with a symbolic string"})
 		}
